@@ -8,6 +8,9 @@ satisfied, and the conclusion fails:
   vector refer to scalar variables nothing constrains;
 * `sp_ce3`: conditional cone with `kernel_basis` and a recorded basis: the relative-entropy rows use
   `B·pre_nu`, the balance rows use `pre_nu` (`−eˣ` is "certified" on `x ≤ −1`).
+A fourth input, `sp_ce4`, satisfies ALL hypotheses of `primal_sound` and shows why part (ii) speaks of the
+reached indices only: under `sum_age_force_equality` an index no AGE vector reaches keeps its inequality
+row, so `Σ_i age_i = c` fails there (`0 ≠ 5`).
 -/
 import SageoptModel.Lemmas.SagePrimalMain
 import Mathlib.Tactic.NormNum
@@ -17,6 +20,20 @@ open Sageopt Sageopt.Compile Sageopt.Solvers Sageopt.Analysis
 
 /-- the conclusion of `primal_sound` -/
 def sp_Concl (Q : CType → List ℝ → Prop) (inp : PrimalIn) (σ : Nat → ℝ) : Prop :=
+  let m := inp.alpha.length
+  ((inp.ids.filter fun p => !p.nu.isEmpty) ≠ [] →
+    (∀ j, j < m → (inp.ids.map fun p => ageVal σ m inp.c inp.ech p j).sum ≤ cVal σ inp.c j) ∧
+    (inp.settings.sumAgeForceEquality = true →
+      ∀ j, j < m → reachedB inp.ech j = true →
+        (inp.ids.map fun p => ageVal σ m inp.c inp.ech p j).sum = cVal σ inp.c j) ∧
+    (∀ p ∈ inp.ids, ∀ j, j < m → j ≠ p.i → 0 ≤ ageVal σ m inp.c inp.ech p j) ∧
+    (∀ p ∈ inp.ids, ∀ x, InDom Q inp.X inp.n x →
+      0 ≤ sigVal inp.alpha ((List.range m).map fun j => ageVal σ m inp.c inp.ech p j) x)) ∧
+  (∀ x, InDom Q inp.X inp.n x → 0 ≤ sigVal inp.alpha ((List.range m).map fun j => cVal σ inp.c j) x)
+
+/-- the conclusion with part (ii) demanding equality at EVERY index (the statement before the reached /
+    unreached split of `_age_vectors_sum_to_c`); false for the model, see `sp_ce4_not_eqAll` -/
+def sp_ConclEqAll (Q : CType → List ℝ → Prop) (inp : PrimalIn) (σ : Nat → ℝ) : Prop :=
   let m := inp.alpha.length
   ((inp.ids.filter fun p => !p.nu.isEmpty) ≠ [] →
     (∀ j, j < m → (inp.ids.map fun p => ageVal σ m inp.c inp.ech p j).sum ≤ cVal σ inp.c j) ∧
@@ -197,5 +214,69 @@ theorem sp_ce3_not_sound (Q : CType → List ℝ → Prop) : ¬ sp_Concl Q sp_ce
   simp [sigVal, rdot, cVal, sp_ce3, constE, argVal, List.range, List.range.loop] at h2
   have := Real.exp_pos (-1)
   linarith
+
+/-! ### sp_ce4 -/
+
+/-- `1 − 2eˣ + e²ˣ + 5e³ˣ`, default-style covers, `sum_age_force_equality`: index 3 is reached by no AGE vector -/
+def sp_ce4 : PrimalIn :=
+  { n := 1, alpha := [[0], [1], [2], [3]], c := [constE 1, constE (-2), constE 1, constE 5], X := none,
+    settings := { sumAgeForceEquality := true },
+    ech := { U := [1], N := [1], P := [0, 2, 3], covers := [(1, [true, false, true, false])] },
+    ids := [{ i := 1, nu := [10, 11], basis := [], cvar := [12, 13], epi := [14, 15], eta := [] }], dummy := 20 }
+
+def sp_ce4Rows : List CRow :=
+  [⟨[(14, -1), (15, -1)], -2, false⟩,
+   ⟨[(14, -1)], 0, false⟩, ⟨[(12, 1)], 0, true⟩, ⟨[(10, 1)], 0, false⟩,
+   ⟨[(15, -1)], 0, false⟩, ⟨[(13, 1)], 0, true⟩, ⟨[(11, 1)], 0, false⟩,
+   ⟨[(10, -1), (11, 1)], 0, false⟩,
+   ⟨[(12, -1)], 1, false⟩, ⟨[(20, 0)], 0, false⟩, ⟨[(13, -1)], 1, false⟩,
+   ⟨[(20, 0)], 5, false⟩]
+/-- the reached indices 0, 1, 2 form the `0` cone, the unreached index 3 stays in a `+` cone -/
+def sp_ce4K : List Cone := [⟨.pos, 1⟩, ⟨.exp, 3⟩, ⟨.exp, 3⟩, ⟨.zero, 1⟩, ⟨.zero, 3⟩, ⟨.pos, 1⟩]
+
+/-- ν = (1,1), c^{(1)} = (1,−2,1), epi = (−1,−1) -/
+noncomputable def sp_ce4σ : Nat → ℝ := fun id =>
+  if id = 14 ∨ id = 15 then -1 else if id = 10 ∨ id = 11 ∨ id = 12 ∨ id = 13 then 1 else 0
+
+theorem sp_ce4_wf : WfPrimal sp_ce4 where
+  width := by with_unfolding_all decide
+  clen := by with_unfolding_all decide
+  idsU := by with_unfolding_all decide
+  cover := by with_unfolding_all decide
+  sizes := by with_unfolding_all decide
+  negConst := by with_unfolding_all decide
+  dom := by intro X h; cases h
+
+theorem sp_ce4_kernelOk : sp_KernelOk sp_ce4 := by intro h; cases h
+theorem sp_ce4_cov0 : sp_Cov0 sp_ce4 := by unfold sp_Cov0; with_unfolding_all decide
+theorem sp_ce4_basisOk : sp_BasisOk sp_ce4 := by intro h; cases h
+theorem sp_ce4_rows : primalRows sp_ce4 = .ok (sp_ce4Rows, sp_ce4K) := by with_unfolding_all decide
+theorem sp_ce4_unreached : reachedB sp_ce4.ech 3 = false := by with_unfolding_all decide
+
+theorem sp_ce4_feas (Q : CType → List ℝ → Prop) : FeasRows Q sp_ce4σ sp_ce4Rows sp_ce4K := by
+  unfold FeasRows sp_ce4Rows sp_ce4K
+  simp only [feasBlocks_cons, feasBlocks_nil, List.map_cons, List.map_nil, crowVal_false, crowVal_true,
+    List.take_succ_cons, List.take_zero, List.drop_succ_cons, List.drop_zero, conP, realP, expR,
+    List.sum_cons, List.sum_nil, and_true]
+  simp only [sp_ce4σ]
+  norm_num
+  exact Or.inl ⟨one_pos, by simp⟩
+
+/-- with every hypothesis of `primal_sound` in force, equality at ALL indices fails: at the unreached
+    index 3 the AGE vectors sum to `0`, and `c₃ = 5` -/
+theorem sp_ce4_not_eqAll (Q : CType → List ℝ → Prop) : ¬ sp_ConclEqAll Q sp_ce4 sp_ce4σ := by
+  intro h
+  have h1 := (h.1 (by with_unfolding_all decide)).2.1 rfl 3 (by with_unfolding_all decide)
+  have hv : (ageVector sp_ce4.alpha.length sp_ce4.c sp_ce4.ech
+      { i := 1, nu := [10, 11], basis := [], cvar := [12, 13], epi := [14, 15], eta := [] }).getD 3 (constE 0)
+      = constE 0 := by
+    with_unfolding_all decide
+  have hc : sp_ce4.c.getD 3 (constE 0) = constE 5 := by with_unfolding_all decide
+  unfold ageVal cVal at h1
+  rw [show sp_ce4.ids = [{ i := 1, nu := [10, 11], basis := [], cvar := [12, 13], epi := [14, 15], eta := [] }]
+    from rfl] at h1
+  simp only [List.map_cons, List.map_nil, List.sum_cons, List.sum_nil] at h1
+  rw [hv, hc] at h1
+  simp [argVal, constE] at h1
 
 end Sageopt.Sage
